@@ -23,6 +23,8 @@ import (
 	"time"
 
 	"google.golang.org/grpc"
+	"google.golang.org/grpc/codes"
+	"google.golang.org/grpc/status"
 
 	"github.com/lni/dragonboat/v4"
 	"github.com/lni/dragonboat/v4/raftio"
@@ -38,6 +40,7 @@ type scripted struct {
 	indexes map[uint64]uint64
 	replies map[string][]*pb.NodeHostRequest
 	last    map[string]*pb.NodeHostInfo
+	refuse  map[string]int // the next n reports of this address are answered with an RPC error
 }
 
 func (s *scripted) GetShardConfigChangeIndexList(ctx context.Context, e *pb.Empty) (*pb.ConfigChangeIndexList, error) {
@@ -52,6 +55,10 @@ func (s *scripted) GetShardConfigChangeIndexList(ctx context.Context, e *pb.Empt
 func (s *scripted) ReportAvailableNodeHost(ctx context.Context, nhi *pb.NodeHostInfo) (*pb.NodeHostRequestCollection, error) {
 	s.mu.Lock()
 	defer s.mu.Unlock()
+	if s.refuse[nhi.RaftAddress] > 0 {
+		s.refuse[nhi.RaftAddress]--
+		return nil, status.Error(codes.Unavailable, "scripted: report refused")
+	}
 	s.last[nhi.RaftAddress] = nhi
 	r := s.replies[nhi.RaftAddress]
 	delete(s.replies, nhi.RaftAddress)
@@ -123,7 +130,7 @@ func main() {
 	run = hx.NewRun(*out)
 	defer run.Close()
 	l, _ := net.Listen("tcp", "127.0.0.1:0")
-	d := &scripted{indexes: map[uint64]uint64{}, replies: map[string][]*pb.NodeHostRequest{}, last: map[string]*pb.NodeHostInfo{}}
+	d := &scripted{indexes: map[uint64]uint64{}, replies: map[string][]*pb.NodeHostRequest{}, last: map[string]*pb.NodeHostInfo{}, refuse: map[string]int{}}
 	gs := grpc.NewServer()
 	pb.RegisterDrummerServer(gs, d)
 	go gs.Serve(l)
@@ -387,6 +394,7 @@ func main() {
 		concurrentDelivery(d, dAddr, cfg, fail)
 		bigBatch(d, dAddr, cfg, fail)
 		failoverReports(d, dAddr, cfg, fail)
+		reportAfterARefusedReport(d, dAddr, fail)
 	}
 }
 
@@ -809,6 +817,51 @@ func bigBatch(d *scripted, dAddr string, cfg *pb.Config, fail func(clause, sig, 
 			fail("dispatch_in_order", "same-shard-requests-reordered", fmt.Sprintf("after start-then-kill in one drained batch the data of shard %d is still on disk", 9101+i), ops)
 			return
 		}
+	}
+}
+
+// reportAfterARefusedReport: one report is answered with an RPC error (Drummer restarting, a dropped connection); the
+// reports after it have to reach Drummer again and bring back what is waiting for the NodeHost - a NodeHost that stays
+// silent after one failed report is never seen alive again and can never be told to restore anything (C01, C18)
+func reportAfterARefusedReport(d *scripted, dAddr string, fail func(clause, sig, what string, ops interface{})) {
+	h := newHost()
+	defer h.stop()
+	send := func() error {
+		nhi := h.NH.GetNodeHostInfo(dragonboat.DefaultNodeHostInfoOption)
+		return h.dc.SendNodeHostInfo(ctx(), dAddr, *nhi, "api-"+h.Addr, false)
+	}
+	for i := 0; i < 2; i++ {
+		if send() != nil {
+			run.Count("c18:inconclusive_refused_report")
+			return
+		}
+	}
+	d.mu.Lock()
+	d.refuse[h.Addr] = 1
+	delete(d.last, h.Addr)
+	d.mu.Unlock()
+	first := send()
+	arrived := 0
+	for i := 0; i < 5; i++ {
+		if send() == nil {
+			d.mu.Lock()
+			if d.last[h.Addr] != nil {
+				arrived++
+			}
+			delete(d.last, h.Addr)
+			d.mu.Unlock()
+		}
+	}
+	run.Count("case:report_after_refused_report")
+	if first == nil {
+		run.Count("c18:inconclusive_refused_report") // the refusal did not reach the agent as an error
+		return
+	}
+	if arrived == 0 {
+		why := "two reports arrive, one is answered with an RPC error, and none of the five report cycles after it reaches Drummer: the NodeHost is up and silent for good"
+		ops := []string{"report", "report", "report (answered Unavailable)", "report x5"}
+		fail("reports_keep_flowing", "silent-after-one-refused-report", why, ops)
+		run.Violate(hx.Violation{Property: "C01", Clause: "report_step", Signature: "silent-after-one-refused-report", What: why, Ops: ops})
 	}
 }
 
